@@ -124,6 +124,13 @@ func canon(obj slip.Object, depth int) *cv {
 		if len(v) == 0 {
 			return leaf("nil", "")
 		}
+		// 'x and #'x inside quoted data: since /repo a97a921 the reader gives the LIST (quote x) / (function x) there, where
+		// it gave a function object before. Both are the object the text denotes (the statement is about the text denoting one
+		// sequence of objects whatever the delivery, not about which of the two representations of a quote form is used), so
+		// the list is brought to the form the denotations use.
+		if sym, ok := v[0].(slip.Symbol); ok && len(v) == 2 && (strings.EqualFold(string(sym), "quote") || strings.EqualFold(string(sym), "function")) {
+			return &cv{k: "fn", s: strings.ToLower(string(sym)), kids: []*cv{canon(v[1], depth+1)}}
+		}
 		out := &cv{k: "list"}
 		for _, e := range v {
 			out.kids = append(out.kids, canon(e, depth+1))
